@@ -26,9 +26,14 @@ const (
 	fateBodyRefusedByOther  // ... the other target refused the body (DATA failed)
 	fateBodyRejectedByCheck // ... a check rejected the body
 	fateRcptRejectedByCheck // ... a check rejected a later recipient and the client gave up
+	// I/O-error family (fault_test.go): one mutating file-system call the queue
+	// makes while accepting this message fails with an injected error; when Body
+	// reports it the client aborts the transaction (as msgpipeline and the SMTP
+	// endpoint do), when the queue swallows it the message is committed
+	fateIOError
 )
 
-var fateNames = []string{"commit", "abort-before-body", "abort-after-body", "abort-body-refused-by-other-target", "abort-body-rejected-by-check", "abort-rcpt-rejected-by-check"}
+var fateNames = []string{"commit", "abort-before-body", "abort-after-body", "abort-body-refused-by-other-target", "abort-body-rejected-by-check", "abort-rcpt-rejected-by-check", "io-error"}
 
 // msgSpec is the harness' own record of one enqueued message: every oracle
 // decision about "what was accepted" is taken against this record, never
@@ -104,6 +109,11 @@ type scenario struct {
 	// (pipeline_test.go); Idx names the registered instances.
 	Pipeline bool
 	Idx      int
+	// Fault: I/O-error family (fault_test.go). The K-th mutating file-system
+	// call on the files of the message with fate fateIOError, counted from its
+	// Start to the return of its Body, fails with an injected error. A depth-1
+	// recovery of such a scenario uses FlakyRecovery although it is not recorded.
+	Fault *faultPlan
 }
 
 // noReport: the queue rightly emits no failure report for this message (null
